@@ -213,14 +213,19 @@ func genC05(rt *rapid.T) c05Case {
 		if best < ChainLength(cfg.Rules)+2 {
 			cfg.Leaders = []int{q[rapid.IntRange(0, len(q)-1).Draw(rt, "fixed2")]}
 		}
-	default: // scripted cycle over members of Q
-		l := rapid.IntRange(2, 9).Draw(rt, "nleaders")
+	default: // scripted cycle over members of Q (short cycles often: the same few members lead again and again)
+		l := rapid.SampledFrom([]int{2, 2, 3, 3, 3, 4, 5, 6, 7, 8, 9}).Draw(rt, "nleaders")
 		for i := 0; i < l; i++ {
 			cfg.Leaders = append(cfg.Leaders, q[rapid.IntRange(0, len(q)-1).Draw(rt, "leader")])
 		}
 	}
 	c.Cfg = cfg
-	c.Steps = GenSchedule(rt, cfg, GenOpts{MaxSteps: 90})
+	// a member of the later synchronous quorum is preferably the one that was cut off before (it returns lagging behind)
+	var pref []int
+	for _, id := range q {
+		pref = append(pref, id-1)
+	}
+	c.Steps = GenSchedule(rt, cfg, GenOpts{MaxSteps: 90, CutPrefer: pref})
 	return c
 }
 
